@@ -130,6 +130,8 @@ func (x *Exec) callContract(st *State, con *Contract, callee *ssa.Function, args
 	short := con.Key[strings.Index(con.Key, ".")+1:]
 	st.callSeq[short]++
 	seq := st.callSeq[short]
+	x.traceEvent(st, short, args, vars, site)
+	x.atCallChecks(st, short, seq, vars, site)
 	// receiver non-nil
 	if callee.Signature.Recv() != nil && len(args) > 0 {
 		if _, ok := args[0].T.Underlying().(*types.Pointer); ok && args[0].A == nil {
@@ -202,9 +204,34 @@ func (x *Exec) callContract(st *State, con *Contract, callee *ssa.Function, args
 	}
 	env := x.envFor(st, nil, con.Pkg, post)
 	env.old = oldEnv
+	var freshNew []string
+	env.fresh = func(term string) string {
+		// an object allocated by the callee differs from nil and from every pointer the caller has seen so far
+		cs := []string{fmt.Sprintf("(not (= %s %s))", term, cx.num(0))}
+		for _, g := range sortedKeys(st.ptrs) {
+			for _, q := range st.ptrs[g] {
+				if q != term {
+					cs = append(cs, fmt.Sprintf("(not (= %s %s))", term, q))
+				}
+			}
+		}
+		// remember it as an object this activation owns (it may be written without a modifies entry)
+		nm := x.declConst(st, "fr", cx.intSort())
+		cs = append(cs, fmt.Sprintf("(= %s %s)", nm, term))
+		freshNew = append(freshNew, nm)
+		return "(and " + strings.Join(cs, " ") + ")"
+	}
 	for _, cl := range con.Ensures {
 		x.assume(st, x.clauseTerm(st, cl, env))
 	}
+	for _, nm := range freshNew {
+		st.fresh[nm] = true
+		st.ptrs["fresh"] = append(st.ptrs["fresh"], nm)
+	}
+	if n := len(st.trace); n > 0 && st.trace[n-1].name == short {
+		st.trace[n-1].res = rv
+	}
+	x.havocSharedCaptures(st)
 	return rv
 }
 
@@ -327,7 +354,23 @@ func (x *Exec) modKeys(callee *ssa.Function, m string, keys map[string]bool) {
 	}
 }
 
-func (x *Exec) typeContractMods(cc *ssa.CallCommon, keys map[string]bool) {
+func (x *Exec) typeContractMods(f *ssa.Function, cc *ssa.CallCommon, keys map[string]bool) {
+	if !cc.IsInvoke() {
+		pv := x.prov(f, cc.Value, 0)
+		switch pv.key {
+		case "passthrough", "callback":
+			// the effects are those of the function literals handed over, which the loop scan visits as anonymous functions
+			return
+		case "":
+		default:
+			if con, callee := x.w.Contracts[pv.key], x.w.Funcs[pv.key]; con != nil && callee != nil {
+				for _, m := range con.Modifies {
+					x.modKeys(callee, m, keys)
+				}
+				return
+			}
+		}
+	}
 	panic(unsupported("call through interface / function value inside a loop needs a type contract"))
 }
 
@@ -336,7 +379,8 @@ func (x *Exec) callInterface(st *State, cc *ssa.CallCommon, recv Val, args []Val
 }
 
 func (x *Exec) callFuncValue(st *State, cc *ssa.CallCommon, fv Val, args []Val, setResult func(Val), site string) {
-	k := x.provenance(st.top().fn, cc.Value, 0)
+	pv := x.prov(st.top().fn, cc.Value, 0)
+	k := pv.key
 	if k == "" {
 		panic(unsupported("call through a function value of unknown contract at " + site + " (declare a fieldcontract / funcvar)"))
 	}
@@ -358,7 +402,12 @@ func (x *Exec) callFuncValue(st *State, cc *ssa.CallCommon, fv Val, args []Val, 
 		if c, isCall := fr.block.Instrs[fr.idx].(*ssa.Call); isCall {
 			ret = c
 		}
+		x.traceCall(st, "passthrough:"+paramNameOf(cc.Value), args, site)
 		x.callStatic(st, ret, mc.Fn.(*ssa.Function), nil, binds, setResult, site, ret == nil)
+		return
+	}
+	if k == "callback" {
+		x.callCallback(st, cc, args, setResult, site)
 		return
 	}
 	con := x.w.Contracts[k]
@@ -366,24 +415,161 @@ func (x *Exec) callFuncValue(st *State, cc *ssa.CallCommon, fv Val, args []Val, 
 	if con == nil || callee == nil {
 		panic(unsupported("contract " + k + " named by a fieldcontract/funcvar does not exist"))
 	}
+	if pv.owner != nil {
+		ov := x.val(st, pv.owner)
+		args = append([]Val{ov}, args...)
+	}
 	setResult(x.callContract(st, con, callee, args, nil, site))
 }
 
-// provenance: the contract a function value is known to satisfy, from where it comes from ("" = unknown).
-func (x *Exec) provenance(f *ssa.Function, v ssa.Value, depth int) string {
-	if depth > 6 {
-		return ""
-	}
-	resolve := func(key string) string {
-		if c := x.w.Contracts[key]; c != nil && c.SameAs != "" {
-			return c.SameAs
+func paramNameOf(v ssa.Value) string {
+	switch v := v.(type) {
+	case *ssa.Parameter:
+		return v.Name()
+	case *ssa.FreeVar:
+		return v.Name()
+	case *ssa.UnOp:
+		switch a := v.X.(type) {
+		case *ssa.FreeVar:
+			return a.Name()
+		case *ssa.Alloc:
+			return a.Comment
 		}
-		return key
+	}
+	return "?"
+}
+
+// callCallback: a call of a plugin-supplied constructor callback (createExpr). Hypothesis (listed in the evidence): the
+// callback affects verified state only by invoking the function values it is handed, any number of times. Every
+// function-typed argument must be a closure whose contract consists of clause groups declared transitive (and proved
+// reflexive/transitive by the lemma functions of the contracts file); its requires are checked here, its modifies are
+// havocked and the group clauses that do not mention the result are assumed. The callback's own result is arbitrary.
+func (x *Exec) callCallback(st *State, cc *ssa.CallCommon, args []Val, setResult func(Val), site string) {
+	cx := x.cx
+	x.traceCall(st, "callback:"+paramNameOf(cc.Value), args, site)
+	fr := st.top()
+	for i, a := range cc.Args {
+		if _, isFn := a.Type().Underlying().(*types.Signature); !isFn {
+			continue
+		}
+		var mc *ssa.MakeClosure
+		switch v := a.(type) {
+		case *ssa.MakeClosure:
+			mc = v
+		case *ssa.UnOp:
+			// local variable holding the closure: right := func() {...}
+			if al, ok := v.X.(*ssa.Alloc); ok {
+				for _, ref := range *al.Referrers() {
+					if s, ok := ref.(*ssa.Store); ok && s.Addr == al {
+						if m, ok := s.Val.(*ssa.MakeClosure); ok && mc == nil {
+							mc = m
+						} else {
+							mc = nil
+							break
+						}
+					}
+				}
+			}
+		}
+		if mc == nil {
+			panic(unsupported("callback argument that is not a function literal at " + site))
+		}
+		f := mc.Fn.(*ssa.Function)
+		key := fnKey(x.w.pkgOfFn(f), f)
+		con := x.w.Contracts[key]
+		if con == nil {
+			panic(unsupported("function literal " + key + " handed to a callback needs a contract"))
+		}
+		for _, cl := range con.Requires {
+			if cl.Group == "" || !transGroups[con.Pkg+"."+cl.Group] {
+				panic(unsupported("function literal " + key + " handed to a callback must only use transitive clause groups (requires)"))
+			}
+		}
+		var binds []Val
+		for _, b := range mc.Bindings {
+			binds = append(binds, x.val(st, b))
+		}
+		// one abstract invocation with only the transitive group clauses (no result clauses, which are per call)
+		eff := *con
+		eff.Ensures = nil
+		for _, cl := range con.Ensures {
+			if cl.Group != "" && transGroups[con.Pkg+"."+cl.Group] && !mentionsResult(cl.Text) {
+				eff.Ensures = append(eff.Ensures, cl)
+			}
+		}
+		_ = i
+		x.callContract(st, &eff, f, nil, binds, site+"/thunk")
+	}
+	// result of the callback: arbitrary
+	res := cc.Signature().Results()
+	var rvals []Val
+	for i := 0; i < res.Len(); i++ {
+		t := res.At(i).Type()
+		n := x.declConst(st, "cb", cx.sortOf(t))
+		x.typeFacts(st, n, t, 0)
+		rvals = append(rvals, Val{S: n, T: t})
+	}
+	_ = fr
+	switch len(rvals) {
+	case 0:
+		setResult(Val{})
+	case 1:
+		setResult(rvals[0])
+	default:
+		setResult(Val{Tuple: rvals, T: res})
+	}
+}
+
+func mentionsResult(s string) bool {
+	for i := 0; i+6 <= len(s); i++ {
+		if s[i:i+6] == "result" {
+			if i > 0 && (isIdentByte(s[i-1])) {
+				continue
+			}
+			return true
+		}
+	}
+	return false
+}
+
+func isIdentByte(c byte) bool {
+	return c == '_' || c >= 'a' && c <= 'z' || c >= 'A' && c <= 'Z' || c >= '0' && c <= '9'
+}
+
+// provInfo: the contract a function value is known to satisfy, from where it comes from (key "" = unknown), and for
+// owner-bound slots the SSA value of the object that owns the slot.
+type provInfo struct {
+	key   string
+	owner ssa.Value
+}
+
+func (x *Exec) provenance(f *ssa.Function, v ssa.Value, depth int) string {
+	return x.prov(f, v, depth).key
+}
+
+func (x *Exec) prov(f *ssa.Function, v ssa.Value, depth int) provInfo {
+	if depth > 6 {
+		return provInfo{}
+	}
+	resolve := func(key string) provInfo {
+		if c := x.w.Contracts[key]; c != nil && c.SameAs != "" {
+			return provInfo{key: c.SameAs}
+		}
+		return provInfo{key: key}
 	}
 	unitCon := x.w.Contracts[fnKey(x.w.pkgOfFn(f), f)]
 	for g := f; (unitCon == nil || unitCon.FuncVars == nil) && g.Parent() != nil; {
 		g = g.Parent()
 		unitCon = x.w.Contracts[fnKey(x.w.pkgOfFn(g), g)]
+	}
+	slot := func(name string, fa *ssa.FieldAddr) provInfo {
+		if si, ok := fieldSlots[name]; ok {
+			if si.Owner {
+				return provInfo{key: si.Key, owner: fa.X}
+			}
+			return provInfo{key: si.Key}
+		}
+		return provInfo{key: fieldContracts[name]}
 	}
 	switch v := v.(type) {
 	case *ssa.Function:
@@ -393,41 +579,41 @@ func (x *Exec) provenance(f *ssa.Function, v ssa.Value, depth int) string {
 		return resolve(fnKey(x.w.pkgOfFn(fn), fn))
 	case *ssa.Parameter:
 		if unitCon != nil {
-			return unitCon.FuncVars[v.Name()]
+			return provInfo{key: unitCon.FuncVars[v.Name()]}
 		}
 	case *ssa.FreeVar:
 		if unitCon != nil {
-			return unitCon.FuncVars[v.Name()]
+			return provInfo{key: unitCon.FuncVars[v.Name()]}
 		}
 	case *ssa.ChangeType:
-		return x.provenance(f, v.X, depth+1)
+		return x.prov(f, v.X, depth+1)
 	case *ssa.Lookup:
 		if u, ok := v.X.(*ssa.UnOp); ok {
 			if fa, ok := u.X.(*ssa.FieldAddr); ok {
-				return fieldContracts[fieldName(fa)+"[]"]
+				return slot(fieldName(fa)+"[]", fa)
 			}
 		}
 	case *ssa.Extract:
-		return x.provenance(f, v.Tuple, depth+1)
+		return x.prov(f, v.Tuple, depth+1)
 	case *ssa.UnOp:
 		switch a := v.X.(type) {
 		case *ssa.FieldAddr:
-			return fieldContracts[fieldName(a)]
+			return slot(fieldName(a), a)
 		case *ssa.FreeVar:
 			if unitCon != nil {
-				return unitCon.FuncVars[a.Name()]
+				return provInfo{key: unitCon.FuncVars[a.Name()]}
 			}
 		case *ssa.Alloc:
 			// a local variable: every store into it must agree
 			if unitCon != nil && unitCon.FuncVars[a.Comment] != "" {
-				return unitCon.FuncVars[a.Comment]
+				return provInfo{key: unitCon.FuncVars[a.Comment]}
 			}
-			k := ""
+			var k provInfo
 			for _, ref := range *a.Referrers() {
 				if s, ok := ref.(*ssa.Store); ok && s.Addr == a {
-					p := x.provenance(f, s.Val, depth+1)
-					if p == "" || (k != "" && k != p) {
-						return ""
+					p := x.prov(f, s.Val, depth+1)
+					if p.key == "" || (k.key != "" && (k.key != p.key || k.owner != p.owner)) {
+						return provInfo{}
 					}
 					k = p
 				}
@@ -435,7 +621,171 @@ func (x *Exec) provenance(f *ssa.Function, v ssa.Value, depth int) string {
 			return k
 		}
 	}
-	return ""
+	return provInfo{}
+}
+
+// conforms: a function with contract key fk may be stored where contract sk is expected. Either it is (declared sameas) sk,
+// or sk is an abstract slot contract made only of clause groups and fk uses all of those groups, requires nothing
+// beyond them and modifies nothing beyond them (so requires(sk) => requires(fk), ensures(fk) => ensures(sk),
+// modifies(fk) within modifies(sk) hold syntactically; parameters are matched by name).
+func (x *Exec) conforms(fk, sk string) (bool, string) {
+	if fk == sk {
+		return true, ""
+	}
+	fc, sc := x.w.Contracts[fk], x.w.Contracts[sk]
+	if fc == nil {
+		return false, "function " + fk + " has no contract"
+	}
+	if sc == nil {
+		return false, "slot contract " + sk + " does not exist"
+	}
+	if fc.SameAs == sk {
+		return true, ""
+	}
+	in := func(g string, gs []string) bool {
+		for _, h := range gs {
+			if h == g {
+				return true
+			}
+		}
+		return false
+	}
+	for _, cl := range append(append([]*Clause{}, sc.Requires...), sc.Ensures...) {
+		if cl.Group == "" {
+			return false, "slot contract " + sk + " has clauses outside clause groups"
+		}
+	}
+	for _, g := range sc.Groups {
+		if !in(g, fc.Groups) {
+			return false, fk + " does not use clause group " + g + " required by " + sk
+		}
+	}
+	for _, cl := range fc.Requires {
+		if !in(cl.Group, sc.Groups) {
+			return false, fk + " has a precondition [" + cl.Label + "] that " + sk + " does not guarantee"
+		}
+	}
+	for _, m := range fc.Modifies {
+		if !in(fc.ModGroup[m], sc.Groups) {
+			return false, fk + " modifies " + m + " outside the frame of " + sk
+		}
+	}
+	return true, ""
+}
+
+// slotStoreCheck emits the obligations for storing function value v into the slot `name` of the object owner.
+func (x *Exec) slotStoreCheck(st *State, name string, fa *ssa.FieldAddr, v ssa.Value, site string) {
+	fr := st.top()
+	si, ok := fieldSlots[name]
+	if !ok {
+		return
+	}
+	ob := "typecontract:" + name + "@" + site
+	var method *ssa.Function
+	var mc *ssa.MakeClosure
+	key := ""
+	switch vv := v.(type) {
+	case *ssa.MakeClosure:
+		mc = vv
+		fn := vv.Fn.(*ssa.Function)
+		if strings.HasSuffix(fn.Name(), "$bound") {
+			if obj, ok := fn.Object().(*types.Func); ok {
+				method = x.w.Prog.FuncValue(obj)
+			}
+			if method != nil {
+				key = fnKey(x.w.pkgOfFn(method), method)
+			}
+		} else {
+			key = fnKey(x.w.pkgOfFn(fn), fn)
+		}
+	default:
+		key = x.prov(fr.fn, v, 0).key
+	}
+	if key == "" {
+		x.check(st, ob, "false", site)
+		x.notes = append(x.notes, ob+": stored function value has no known contract")
+		return
+	}
+	okc, why := x.conforms(key, si.Key)
+	if !okc {
+		x.check(st, ob, "false", site)
+		x.notes = append(x.notes, ob+": "+why)
+		return
+	}
+	if !si.Owner {
+		x.check(st, ob, "true", site)
+		return
+	}
+	// owner binding: the closure must operate on the object that owns the slot
+	ownerV := x.val(st, fa.X)
+	if mc == nil {
+		x.check(st, ob, "false", site)
+		x.notes = append(x.notes, ob+": owner-bound slot needs a bound method or function literal")
+		return
+	}
+	fn := mc.Fn.(*ssa.Function)
+	if method != nil {
+		b := x.val(st, mc.Bindings[0])
+		x.check(st, ob, fmt.Sprintf("(= %s %s)", b.S, ownerV.S), site)
+		return
+	}
+	// function literal: its free variable named like the slot contract's first parameter holds the owner
+	slotFn := x.w.Funcs[si.Key]
+	if slotFn == nil || len(slotFn.Params) == 0 {
+		x.check(st, ob, "false", site)
+		return
+	}
+	pname := slotFn.Params[0].Name()
+	for i, fv := range fn.FreeVars {
+		if fv.Name() != pname {
+			continue
+		}
+		al, isAlloc := mc.Bindings[i].(*ssa.Alloc)
+		if !isAlloc || !x.cellStable(al) {
+			x.check(st, ob, "false", site)
+			x.notes = append(x.notes, ob+": captured variable "+pname+" is assigned after initialisation")
+			return
+		}
+		cur := x.loadAddr(st, x.addrOf(st, x.val(st, al), site))
+		x.check(st, ob, fmt.Sprintf("(= %s %s)", cur.S, ownerV.S), site)
+		return
+	}
+	x.check(st, ob, "false", site)
+	x.notes = append(x.notes, ob+": function literal does not capture "+pname)
+}
+
+// cellStable: the variable cell is stored to exactly once in its function (the parameter spill / initialisation) and
+// never inside the function literals that capture it.
+func (x *Exec) cellStable(al *ssa.Alloc) bool {
+	n := 0
+	for _, ref := range *al.Referrers() {
+		if s, ok := ref.(*ssa.Store); ok && s.Addr == al {
+			n++
+		}
+	}
+	if n != 1 {
+		return false
+	}
+	var scan func(f *ssa.Function) bool
+	scan = func(f *ssa.Function) bool {
+		for _, af := range f.AnonFuncs {
+			for _, fv := range af.FreeVars {
+				if fv.Name() != al.Comment {
+					continue
+				}
+				for _, ref := range *fv.Referrers() {
+					if s, ok := ref.(*ssa.Store); ok && s.Addr == fv {
+						return false
+					}
+				}
+			}
+			if !scan(af) {
+				return false
+			}
+		}
+		return true
+	}
+	return scan(al.Parent())
 }
 
 func fieldName(fa *ssa.FieldAddr) string {
@@ -634,4 +984,94 @@ func (x *Exec) stdlib(st *State, callee *ssa.Function, args []Val, site string) 
 		return Val{}
 	}
 	panic(unsupported("standard library call " + full + " at " + site))
+}
+
+// ghost call trace ---------------------------------------------------------------------------------
+
+func (x *Exec) traceEvent(st *State, name string, args []Val, vars map[string]Val, site string) {
+	h := map[string]string{}
+	for k, v := range st.heap {
+		h[k] = v
+	}
+	st.trace = append(st.trace, traceEv{name: name, args: args, vars: vars, heap: h, site: site})
+}
+
+func (x *Exec) traceCall(st *State, name string, args []Val, site string) {
+	x.traceEvent(st, name, args, nil, site)
+}
+
+// atCallChecks emits the obligations "atcall <callee> [label] expr" of the unit's contract: expr must hold in the state in
+// which the unit calls callee (old() = the unit's entry state).
+func (x *Exec) atCallChecks(st *State, short string, seq int, calleeVars map[string]Val, site string) {
+	if x.con == nil || len(st.frames) != 1 {
+		return
+	}
+	for i, cl := range x.con.AtCalls {
+		if cl.Callee != short && cl.Callee != "*" {
+			continue
+		}
+		lab := cl.Label
+		if lab == "" {
+			lab = fmt.Sprintf("%d", i+1)
+		}
+		env := x.invEnv(st)
+		if cl.Callee != "*" {
+			for k, v := range calleeVars {
+				env.vars["arg_"+k] = v
+			}
+		}
+		g := x.clauseTerm(st, cl, env)
+		x.check(st, fmt.Sprintf("atcall@%s[%s]", short, lab), g, site)
+	}
+}
+
+// havocSharedCaptures: variables captured by the unit (a function literal) that some function literal assigns are shared
+// mutable state between activations; any call may re-enter a literal sharing them, so they are forgotten after every call.
+func (x *Exec) havocSharedCaptures(st *State) {
+	if len(x.fn.FreeVars) == 0 {
+		return
+	}
+	top := x.fn
+	for top.Parent() != nil {
+		top = top.Parent()
+	}
+	fr := st.frames[0]
+	for _, fv := range x.fn.FreeVars {
+		if !x.w.mutableCapture(top, fv.Name()) {
+			continue
+		}
+		r, ok := fr.regs[fv]
+		if !ok {
+			continue
+		}
+		et := fv.Type().(*types.Pointer).Elem()
+		key := x.cx.cellKey(et)
+		n := x.declConst(st, "shared_"+sanitize(fv.Name()), x.cx.sortOf(et))
+		x.typeFacts(st, n, et, 0)
+		x.heapSet(st, key, r.S, n)
+	}
+}
+
+// mutableCapture: some function literal nested in top assigns its free variable called name.
+func (w *World) mutableCapture(top *ssa.Function, name string) bool {
+	var scan func(f *ssa.Function) bool
+	scan = func(f *ssa.Function) bool {
+		for _, af := range f.AnonFuncs {
+			for _, fv := range af.FreeVars {
+				if fv.Name() != name {
+					continue
+				}
+				for _, ref := range *fv.Referrers() {
+					if s, ok := ref.(*ssa.Store); ok && s.Addr == fv {
+						return true
+					}
+				}
+			}
+			if scan(af) {
+				return true
+			}
+		}
+		return false
+	}
+	return scan(top)
 }
